@@ -101,8 +101,8 @@ def flush_close(d0: int, d1: int, d2: int, s0: int, s1: int, s2: int, s3: int, e
         expected = PROXY_AUTH_FAILED_RESPONSE_PKT.tobytes()
     elif cause == 'web404':
         cs.inq.append(b'GET /nothing' + B(d0) + b' HTTP/1.1\r\nHost: x\r\n\r\n')
-        if d0 <= 32 or d0 == 63:
-            return skip()
+        if d0 <= 32 or d0 == 63 or d0 >= 127:
+            return skip()       # a non-ASCII path byte is answered by a plain close (C06), there is no output to deliver
         expected = NOT_FOUND_RESPONSE_PKT.tobytes()
     elif cause == 'static':
         cs.inq.append(b'GET /f HTTP/1.1\r\nHost: x\r\n\r\n')
